@@ -20,6 +20,14 @@
 (*              in circuit order>>] >>]  meaning  SUM_j c_j * PROD gs_j    *)
 (*   (a plain gate is one term with coefficient 1 and one record; a Pauli  *)
 (*   word is one term, coefficient 1, one PauliWord / PauliX.. record).    *)
+(* Histories: the same action also validates answers given inside one     *)
+(* commutation-DAG construction (many is_commuting calls over a circuit in *)
+(* which gate types recur on the same wires with other parameters): for    *)
+(* nodes i < j of the DAG, "j is not a successor of i" is the recorded     *)
+(* answer "T" for (op_i, op_j), a direct edge i -> j the answer "F"; the   *)
+(* operands are re-encoded on the pair's joint register.  The answer to a  *)
+(* pair must be sound for THAT pair's parameters, whatever was asked       *)
+(* before in the same construction.                                        *)
 (* One verdict <<"V", tid, clause_ab, clause_ba, commute, words>> per case.*)
 (***************************************************************************)
 EXTENDS Gates, PauliAlg, Json, IOUtils
